@@ -22,10 +22,10 @@ ASSUMPTIONS = ['tolerances are non-negative; comparisons within 1e-9 relative of
                'NormalizedCostTarget(fval=None, generations=0/None) is not judged (undocumented)',
                'CandidateRelativeTolerance only on populations with >= 2 members (documented requirement)']
 CLASSES = {
-    'primitive': {'quick': 46800, 'thorough': 360000},
-    'tree': {'quick': 25200, 'thorough': 180000},
-    'rebuild': {'quick': 5400, 'thorough': 36000},
-    'counters': {'quick': 1080, 'thorough': 4500},
+    'primitive': {'quick': 46800, 'thorough': 468000},
+    'tree': {'quick': 25200, 'thorough': 252000},
+    'rebuild': {'quick': 5400, 'thorough': 54000},
+    'counters': {'quick': 1080, 'thorough': 10800},
 }
 MIN_EVENTS = {'quick': {'assert:primitive': 2000, 'assert:compound': 1000, 'assert:rebuild': 200}}
 CASE_TIMEOUT = 60
